@@ -1,4 +1,4 @@
-import ExprModel.Proofs.CompileWfB
+import ExprModel.Proofs.BcCompileB
 /-
 C05, part 8: the recursion over the tree, and the program-level consequences: whatever `compileProgram`
 returns is accepted by the static checker (on the instruction level unconditionally; on the byte level
@@ -6,79 +6,79 @@ when the jump operands fit the 16 bits the encoding has for them).
 -/
 namespace ExprModel
 
-theorem listGood_of_all (cfg : CompCfg) : ∀ (ns : List Node), (∀ a ∈ ns, NodeGood cfg a) → ListGood cfg ns
-  | [], _ => good_list_nil cfg
-  | n :: ns, h => good_list_cons cfg n ns (h n (by simp)) (listGood_of_all cfg ns (fun a ha => h a (by simp [ha])))
+theorem listWf_of_all (cfg : CompCfg) : ∀ (ns : List Node), (∀ a ∈ ns, NodeWf cfg a) → ListWf cfg ns
+  | [], _ => nodeWf_list_nil cfg
+  | n :: ns, h => nodeWf_list_cons cfg n ns (h n (by simp)) (listWf_of_all cfg ns (fun a ha => h a (by simp [ha])))
 
-def AllGood (cfg : CompCfg) : List Node → Prop
+def AllWf (cfg : CompCfg) : List Node → Prop
   | [] => True
-  | n :: ns => NodeGood cfg n ∧ AllGood cfg ns
+  | n :: ns => NodeWf cfg n ∧ AllWf cfg ns
 
-theorem AllGood.mem {cfg : CompCfg} : ∀ {ns : List Node}, AllGood cfg ns → ∀ a ∈ ns, NodeGood cfg a
+theorem AllWf.mem {cfg : CompCfg} : ∀ {ns : List Node}, AllWf cfg ns → ∀ a ∈ ns, NodeWf cfg a
   | [], _, _, h => by cases h
   | n :: ns, hg, a, h => by
     rcases List.mem_cons.1 h with rfl | h
     · exact hg.1
-    · exact AllGood.mem hg.2 a h
+    · exact AllWf.mem hg.2 a h
 
 mutual
-theorem compileNode_good (cfg : CompCfg) : ∀ (n : Node), NodeGood cfg n
-  | .nil m => good_nil cfg m
-  | .ident m name ns => good_ident cfg m name ns
-  | .int m v => good_int cfg m v
-  | .float m v => good_float cfg m v
-  | .bool m b => good_bool cfg m b
-  | .str m s => good_str cfg m s
-  | .const m v => good_const cfg m v
-  | .unary m op x => good_unary cfg m op x (compileNode_good cfg x)
-  | .binary m op l r => good_binary cfg m op l r (compileNode_good cfg l) (compileNode_good cfg r)
-  | .matches m re l r => good_matches cfg m re l r (compileNode_good cfg l) (compileNode_good cfg r)
-  | .prop m x name ns => good_prop cfg m x name ns (compileNode_good cfg x)
-  | .index m x i => good_index cfg m x i (compileNode_good cfg x) (compileNode_good cfg i)
-  | .slice m x none none => good_slice cfg m x none none (compileNode_good cfg x) (fun _ h => by cases h) (fun _ h => by cases h)
+theorem compileNode_wf (cfg : CompCfg) : ∀ (n : Node), NodeWf cfg n
+  | .nil m => nodeWf_nil cfg m
+  | .ident m name ns => nodeWf_ident cfg m name ns
+  | .int m v => nodeWf_int cfg m v
+  | .float m v => nodeWf_float cfg m v
+  | .bool m b => nodeWf_bool cfg m b
+  | .str m s => nodeWf_str cfg m s
+  | .const m v => nodeWf_const cfg m v
+  | .unary m op x => nodeWf_unary cfg m op x (compileNode_wf cfg x)
+  | .binary m op l r => nodeWf_binary cfg m op l r (compileNode_wf cfg l) (compileNode_wf cfg r)
+  | .matches m re l r => nodeWf_matches cfg m re l r (compileNode_wf cfg l) (compileNode_wf cfg r)
+  | .prop m x name ns => nodeWf_prop cfg m x name ns (compileNode_wf cfg x)
+  | .index m x i => nodeWf_index cfg m x i (compileNode_wf cfg x) (compileNode_wf cfg i)
+  | .slice m x none none => nodeWf_slice cfg m x none none (compileNode_wf cfg x) (fun _ h => by cases h) (fun _ h => by cases h)
   | .slice m x (some f) none =>
-    good_slice cfg m x (some f) none (compileNode_good cfg x)
-      (fun f' h => by cases h; exact compileNode_good cfg f) (fun _ h => by cases h)
+    nodeWf_slice cfg m x (some f) none (compileNode_wf cfg x)
+      (fun f' h => by cases h; exact compileNode_wf cfg f) (fun _ h => by cases h)
   | .slice m x none (some t) =>
-    good_slice cfg m x none (some t) (compileNode_good cfg x) (fun _ h => by cases h)
-      (fun t' h => by cases h; exact compileNode_good cfg t)
+    nodeWf_slice cfg m x none (some t) (compileNode_wf cfg x) (fun _ h => by cases h)
+      (fun t' h => by cases h; exact compileNode_wf cfg t)
   | .slice m x (some f) (some t) =>
-    good_slice cfg m x (some f) (some t) (compileNode_good cfg x)
-      (fun f' h => by cases h; exact compileNode_good cfg f) (fun t' h => by cases h; exact compileNode_good cfg t)
+    nodeWf_slice cfg m x (some f) (some t) (compileNode_wf cfg x)
+      (fun f' h => by cases h; exact compileNode_wf cfg f) (fun t' h => by cases h; exact compileNode_wf cfg t)
   | .method m x name args ns =>
-    good_method cfg m x name args ns (compileNode_good cfg x) (listGood_of_all cfg args (compileAll_good cfg args).mem)
-  | .func m name args fast => good_func cfg m name args fast (listGood_of_all cfg args (compileAll_good cfg args).mem)
-  | .builtin m name args => good_builtin cfg m name args (compileAll_good cfg args).mem
-  | .closure m x => good_closure cfg m x (compileNode_good cfg x)
-  | .pointer m => good_pointer cfg m
-  | .cond m c a b => good_cond cfg m c a b (compileNode_good cfg c) (compileNode_good cfg a) (compileNode_good cfg b)
-  | .array m xs => good_array cfg m xs (listGood_of_all cfg xs (compileAll_good cfg xs).mem)
-  | .map m ps => good_map cfg m ps (listGood_of_all cfg ps (compileAll_good cfg ps).mem)
-  | .pair m k v => good_pair cfg m k v (compileNode_good cfg k) (compileNode_good cfg v)
-theorem compileAll_good (cfg : CompCfg) : ∀ (ns : List Node), AllGood cfg ns
+    nodeWf_method cfg m x name args ns (compileNode_wf cfg x) (listWf_of_all cfg args (compileAll_wf cfg args).mem)
+  | .func m name args fast => nodeWf_func cfg m name args fast (listWf_of_all cfg args (compileAll_wf cfg args).mem)
+  | .builtin m name args => nodeWf_builtin cfg m name args (compileAll_wf cfg args).mem
+  | .closure m x => nodeWf_closure cfg m x (compileNode_wf cfg x)
+  | .pointer m => nodeWf_pointer cfg m
+  | .cond m c a b => nodeWf_cond cfg m c a b (compileNode_wf cfg c) (compileNode_wf cfg a) (compileNode_wf cfg b)
+  | .array m xs => nodeWf_array cfg m xs (listWf_of_all cfg xs (compileAll_wf cfg xs).mem)
+  | .map m ps => nodeWf_map cfg m ps (listWf_of_all cfg ps (compileAll_wf cfg ps).mem)
+  | .pair m k v => nodeWf_pair cfg m k v (compileNode_wf cfg k) (compileNode_wf cfg v)
+theorem compileAll_wf (cfg : CompCfg) : ∀ (ns : List Node), AllWf cfg ns
   | [] => trivial
-  | n :: ns => ⟨compileNode_good cfg n, compileAll_good cfg ns⟩
+  | n :: ns => ⟨compileNode_wf cfg n, compileAll_wf cfg ns⟩
 end
 
 /-! ### program level -/
 
 theorem Frag.wfInstrs {c : Array Val} {code : List LInstr} (h : Frag c code) : wfInstrs c (instrs code) = true := by
   unfold ExprModel.wfInstrs
-  have hj : jumpsOk (boundary (instrs code)) 0 (instrs code) = true := h.jumps
+  have hj : jumpsOk (instrBoundary (instrs code)) 0 (instrs code) = true := h.jumps
   simp [h.args, hj, h.nest 0]
 
 /-- every jump operand of the compiled code fits the 16 bits the encoding has for it -/
 def Compiled.FitsU16 (c : Compiled) : Prop := ∀ i ∈ c.code, i.instr.op.isJump = true → i.instr.arg < 65536
 
 /-- the configurations the library produces: `Expect` is absent, int64 (0) or float64 (1) -/
-def CfgOk (cfg : CompCfg) : Prop := ∀ t, cfg.cast = some t → t ≤ 1
+def CompCfgOk (cfg : CompCfg) : Prop := ∀ t, cfg.cast = some t → t ≤ 1
 
-theorem compileProgram_frag (cfg : CompCfg) (hcfg : CfgOk cfg) (n : Node) (c : Compiled)
+theorem compileProgram_frag (cfg : CompCfg) (hcfg : CompCfgOk cfg) (n : Node) (c : Compiled)
     (h : compileProgram cfg n = .ok c) :
     Frag c.consts c.code ∧ c.consts.size ≤ 65535 ∧ (cfg.jumpGuard = true → c.FitsU16) := by
   unfold compileProgram at h
-  obtain ⟨⟨code, p⟩, h1, h⟩ := bind_ok h
-  have r := compileNode_good cfg n _ _ _ PoolOk.empty h1
+  obtain ⟨⟨code, p⟩, h1, h⟩ := cr_bind_ok h
+  have r := compileNode_wf cfg n _ _ _ PoolOk.empty h1
   dsimp only at h
   split at h
   · cases h
